@@ -403,7 +403,19 @@ pub fn expect_tag(exp: &mut Expected, p: &str, region: &[u8], it: &Item, kind: u
                         exp.if_present(format!("{q}.rel"), Val::B(true));
                         exp.if_present(format!("{q}.rel_twins"), Val::B(true));
                         if names {
-                            exp.is(format!("{q}.name"), crate::elfnames::model_name(le32(b, at)));
+                            // the name as the documented lookup gives it - required where it lies
+                            // inside the string table as that section's size field describes it;
+                            // left open where the size field says the name is not (fully) in the
+                            // table (a bounded lookup may refuse or cut it there)
+                            let st = off + 20 + shndx as usize * es as usize;
+                            let st_size = if es == 40 { le32(b, st + 20) as u64 } else { le64(b, st + 32) };
+                            let name_off = le32(b, at) as u64;
+                            let name_len = crate::elfnames::names()[name_off as usize..].iter().position(|x| *x == 0).unwrap_or(0) as u64;
+                            if name_off + name_len < st_size {
+                                exp.is(format!("{q}.name"), crate::elfnames::model_name(name_off as u32));
+                            } else {
+                                exp.any(format!("{q}.name"));
+                            }
                         }
                         j += 1;
                     }
